@@ -54,6 +54,7 @@ impl WorkerProc {
             .stdin(Stdio::piped())
             .stdout(Stdio::piped())
             .stderr(Stdio::null())
+            .env("RUST_BACKTRACE", "1")
             .spawn()
             .map_err(|e| format!("spawn worker: {}", e))?;
         let stdin = child.stdin.take().unwrap();
